@@ -80,6 +80,7 @@ func (f *fAdapterTransport) Open() error {
 	go f.readLoop()
 	f.isOpen = true
 	f.closeChan = make(chan error, 1)
+	verifHook("life.open", f, 0, 0)
 	return nil
 }
 
@@ -88,13 +89,16 @@ func (f *fAdapterTransport) readLoop() {
 	for {
 		frame, err := f.readFrame(framedTransport)
 		if err != nil {
+			verifHook("life.rl.err", f, 0, 0)
 			// First check if the transport was closed.
 			select {
 			case <-f.closeSignal:
 				// Transport was closed.
+				verifHook("life.rl.signalled", f, 0, 0)
 				return
 			default:
 			}
+			verifHook("life.rl.closing", f, 0, 0)
 
 			if err, ok := err.(thrift.TTransportException); ok && err.TypeId() == TRANSPORT_EXCEPTION_END_OF_FILE {
 				// EOF indicates remote peer disconnected.
@@ -144,8 +148,10 @@ func (f *fAdapterTransport) Close() error {
 func (f *fAdapterTransport) close(cause error) error {
 	f.mu.Lock()
 	defer f.mu.Unlock()
+	verifHook("life.close.enter", f, 0, 0)
 
 	if !f.isOpen {
+		verifHook("life.close.notopen", f, 0, 0)
 		return thrift.NewTTransportException(TRANSPORT_EXCEPTION_NOT_OPEN, "Transport not open")
 	}
 
@@ -178,6 +184,7 @@ func (f *fAdapterTransport) close(cause error) error {
 	}
 
 	f.isOpen = false
+	verifHook("life.close.done", f, 0, 0)
 	return nil
 }
 
@@ -213,13 +220,17 @@ func (f *fAdapterTransport) Request(fctx FContext, payload []byte) (thrift.TTran
 	defer cancelFn()
 
 	go f.send(ctx, payload, errorC, false)
+	verifHook("req.wait", f.registry, verifOpID(fctx), 0)
 
 	select {
 	case result := <-resultC:
+		verifHook("req.result", f.registry, verifOpID(fctx), 0)
 		return &thrift.TMemoryBuffer{Buffer: bytes.NewBuffer(result)}, nil
 	case err := <-errorC:
+		verifHook("req.err", f.registry, verifOpID(fctx), 0)
 		return nil, err
 	case <-ctx.Done():
+		verifHook("req.timeout", f.registry, verifOpID(fctx), 0)
 		return nil, thrift.NewTTransportException(TRANSPORT_EXCEPTION_TIMED_OUT, "frugal: request timed out")
 	}
 }
